@@ -338,8 +338,8 @@ func preamble(bv bool) string {
 	sb.WriteString("(set-logic ALL)\n")
 	sb.WriteString(fmt.Sprintf("(declare-datatypes ((Ref 0)) (((mkobj (oid Int)) (mksub (sparent Ref) (sfld Int)) (mkelem (earr Ref) (eidx %s)))))\n", idx))
 	sb.WriteString("(define-fun rnil () Ref (mkobj 0))\n")
+	// rootid(r): identity of the allocation r lives in (recursive over the reference structure; exact at every depth).
 	sb.WriteString("(define-fun-rec rootid ((r Ref)) Int (ite ((_ is mkobj) r) (oid r) (ite ((_ is mksub) r) (rootid (sparent r)) (rootid (earr r)))))\n")
-	sb.WriteString("(define-fun-rec relem ((r Ref)) Ref (ite ((_ is mksub) r) (relem (sparent r)) r))\n")
 	sb.WriteString("(declare-fun dyntype (Ref) Int)\n")
 	if bv {
 		sb.WriteString("(declare-sort Str 0)\n(declare-fun strlen (Str) (_ BitVec 64))\n")
